@@ -1051,3 +1051,377 @@ int run_preempt_writer(const Args& a) {
     if (executions < 50) { rep.inconclusive("fewer than 50 preempted executions"); }
     return rep.finish();
 }
+
+// ---------------------------------------------------------------------------
+// Park explorer (two real threads): writer A is parked at its k-th hook event -
+// any point, also while it holds node locks or the root lock - and exactly then
+// a second thread B starts a burst of writes next to A's key. A resumes when B
+// has finished or after a bounded pause (B may be blocked on a lock A holds; it
+// then continues concurrently). For every k of A's operation (or a sample).
+// This is the systematic form of "stall after a lock release and let the other
+// writer in": it reaches the gaps between two statements of a writer's critical
+// path without a harness written for one particular tree shape.
+// Oracles: sequential equivalence as in the writer variant (sound: A may take
+// effect anywhere relative to B's program-ordered burst), walker, final content.
+namespace {
+struct Park {
+    bool armed{false};
+    uint64_t count{0};
+    uint64_t park_at{0};
+    uint32_t pause_us{200};
+    std::atomic<uint64_t>* go{nullptr};
+    std::atomic<uint64_t>* done{nullptr};
+    uint64_t gen{0};
+    bool parked{false};
+};
+thread_local Park* t_park = nullptr; // NOLINT
+
+bool park_hook(yakushima::verif::point p, const void* /*obj*/) {
+    Park* s = t_park;
+    if (s == nullptr || !s->armed) { return false; }
+    using yakushima::verif::point;
+    if (p != point::ATOMIC && p != point::LOCK_ACQ && p != point::LOCK_REL && p != point::ROOT_ACQ && p != point::ROOT_REL) { return false; }
+    ++s->count;
+    if (s->count == s->park_at && s->go != nullptr) {
+        s->parked = true;
+        s->go->store(s->gen, std::memory_order_release);
+        double t0 = now_s();
+        while (s->done->load(std::memory_order_acquire) != s->gen && (now_s() - t0) * 1e6 < s->pause_us) { _mm_pause(); }
+    }
+    return false;
+}
+} // namespace
+
+int run_park(const Args& a) {
+    uint64_t seed = a.num("seed", 1);
+    uint64_t cases = a.num("cases", 300);
+    uint64_t max_points = a.num("points", 40);
+    Report rep(a.str("prop", "C08"), "park_explorer", seed);
+    rep.mute_result_oracles(a.num("progress_only", 0) != 0); // C09 runs: only "every call returns"
+    rep.set_rule("park explorer: per case a tree of 20..400 keys in which a random region was thinned to leaves with a single key (so that removes collapse nodes and inserts next to full nodes split them) and ONE writer operation A; A is run "
+                 "undisturbed to count its K hook events (shared accesses, lock acquisitions and releases), then re-run on an identically rebuilt tree once per chosen k: at its k-th event - wherever that is, also inside its critical "
+                 "sections - A is parked for at most 50..400 us and a second thread starts a burst of writes next to A's key (singleton removes that collapse the sibling / parent, inserts that split the neighbour / parent, the same key); "
+                 "A resumes when the burst is done or the pause is over. Oracles: statuses and final content equal a sequential execution with A at some position of the burst; walker (parent pointers, separators, leaf chain); every acknowledged key "
+                 "reachable. distinct_nontrivial = executions by (A's op, burst kind, relative position of k, whether the burst finished inside the pause)");
+    yk::init();
+    yakushima::verif::set_hook(&park_hook);
+    Park park;
+    t_park = &park;
+    Rng r(seed);
+    std::string storage = "pk";
+    std::atomic<uint64_t> next_id{1};
+    const std::size_t VLEN = 24;
+    struct BOp {
+        int kind; // 0 unique insert, 1 upsert, 2 remove
+        std::string key;
+        uint64_t id;
+        status got{status::OK};
+    };
+    std::vector<BOp> burst;
+    std::atomic<uint64_t> go{0}, done{0};
+    std::atomic<bool> quit{false};
+    park.go = &go;
+    park.done = &done;
+    std::thread bthread([&] {
+        alloc::set_role(alloc::ROLE_WORKER);
+        Session bs;
+        uint64_t seen = 0;
+        for (;;) {
+            uint64_t g = 0;
+            for (uint64_t w = 0; (g = go.load(std::memory_order_acquire)) == seen && !quit.load(); ++w) {
+                if (w < 2000) {
+                    _mm_pause();
+                } else {
+                    std::this_thread::sleep_for(std::chrono::microseconds(20));
+                }
+            }
+            if (quit.load()) { break; }
+            seen = g;
+            bs.reenter();
+            for (auto& op : burst) {
+                std::string v = op.kind == 2 ? std::string() : make_value(op.id, op.key, VLEN);
+                op.got = op.kind == 2 ? yk::remove(bs.tok, storage, op.key) : yput(bs.tok, storage, op.key, v, op.kind == 0, 8);
+            }
+            bs.leave();
+            done.store(g, std::memory_order_release);
+        }
+    });
+    Session oses, wses;
+    uint64_t executions = 0, finished_inside = 0;
+    for (uint64_t cs = 0; cs < cases && rep.violations() < 12; ++cs) {
+        int ukind = static_cast<int>(r.below(2));
+        std::size_t n = r.chance(1, 3) ? r.range(100, 400) : r.range(20, 90);
+        std::string pfx = ukind == 0 ? "" : "LAYER001";
+        std::vector<std::string> uni;
+        for (std::size_t i = 0; i < n * 2; ++i) {
+            char b[16];
+            snprintf(b, sizeof b, "%05zu", i);
+            uni.push_back(pfx + (ukind == 0 ? "k" : "") + b);
+        }
+        std::vector<std::pair<std::string, uint64_t>> initial;
+        std::vector<std::string> thin;
+        for (std::size_t i = 0; i < uni.size(); i += 2) { initial.emplace_back(uni[i], next_id.fetch_add(1)); }
+        {
+            // ascending build gives leaves of 8 keys; thin a region to single-key leaves (keep the first key of every 8)
+            std::size_t present = initial.size();
+            std::size_t from = r.below(present), len = r.range(16, 80);
+            for (std::size_t i = from; i < present && i < from + len; ++i) {
+                if (i % 8 != 0 || r.chance(1, 6)) { thin.push_back(initial[i].first); }
+            }
+        }
+        std::map<std::string, uint64_t> state0;
+        auto build = [&]() {
+            yk::create_storage(storage);
+            state0.clear();
+            for (auto& [k, id] : initial) {
+                yput(wses.tok, storage, k, make_value(id, k, VLEN));
+                state0[k] = id;
+            }
+            for (auto& k : thin) {
+                yk::remove(wses.tok, storage, k);
+                state0.erase(k);
+            }
+        };
+        oses.reenter();
+        wses.reenter();
+        build();
+        std::vector<std::string> present0;
+        for (auto& [k, id] : state0) {
+            (void) id;
+            present0.push_back(k);
+        }
+        if (present0.size() < 6) {
+            yk::delete_storage(storage);
+            oses.leave();
+            wses.leave();
+            continue;
+        }
+        // A's operation: mostly in / next to the thinned region
+        std::string okey;
+        int okind;
+        {
+            std::string anchor = !thin.empty() && r.chance(3, 4) ? thin[r.below(thin.size())] : uni[r.below(uni.size())];
+            auto it = std::lower_bound(present0.begin(), present0.end(), anchor);
+            if (it == present0.end()) { --it; }
+            if (r.chance(1, 2)) {
+                okind = 2; // remove a (likely single) key: empties its leaf, may collapse interiors
+                okey = *it;
+            } else {
+                okind = r.chance(1, 2) ? 0 : 1;
+                okey = r.chance(1, 2) ? anchor : *it; // absent (insert) or present (unique fails / overwrite)
+            }
+        }
+        uint64_t oid = next_id.fetch_add(1);
+        // B's burst next to it
+        int bkind = static_cast<int>(r.below(5));
+        burst.clear();
+        {
+            std::map<std::string, uint64_t> stt = state0;
+            std::size_t ui = static_cast<std::size_t>(std::lower_bound(uni.begin(), uni.end(), okey) - uni.begin());
+            static const std::size_t ms[] = {1, 2, 4, 8, 16};
+            std::size_t m = ms[r.below(5)];
+            bool up = r.chance(1, 2);
+            auto near_keys = [&](bool want_present, std::size_t count, std::size_t skip) {
+                std::vector<std::string> out;
+                long i = static_cast<long>(ui) + (up ? static_cast<long>(skip) : -static_cast<long>(skip));
+                for (; i >= 0 && i < static_cast<long>(uni.size()) && out.size() < count; i += up ? 1 : -1) {
+                    if ((stt.count(uni[static_cast<std::size_t>(i)]) != 0U) == want_present) { out.push_back(uni[static_cast<std::size_t>(i)]); }
+                }
+                return out;
+            };
+            auto add = [&](int kind, const std::string& k) {
+                burst.push_back(BOp{kind, k, kind == 2 ? 0 : next_id.fetch_add(1)});
+                if (kind == 2) {
+                    stt.erase(k);
+                } else if (kind == 1 || stt.count(k) == 0U) {
+                    stt[k] = burst.back().id;
+                }
+            };
+            switch (bkind) {
+                case 0: // inserts next to the key (split the neighbour / the parent chain)
+                    for (auto& k : near_keys(false, m, 1)) { add(0, k); }
+                    break;
+                case 1: // removes of the neighbouring keys (sibling leaves empty: collapses next to A's)
+                    for (auto& k : near_keys(true, m, 1)) { add(2, k); }
+                    break;
+                case 2: // far inserts at the right end (root / upper interior splits) plus one neighbour remove
+                    for (std::size_t i = 0; i < m; ++i) {
+                        char b[16];
+                        snprintf(b, sizeof b, "%05zu", uni.size() + cs % 7 + i);
+                        add(0, pfx + (ukind == 0 ? "k" : "") + b);
+                    }
+                    for (auto& k : near_keys(true, 1, 1)) { add(2, k); }
+                    break;
+                case 3: // the same key
+                    if (stt.count(okey) != 0U) {
+                        add(2, okey);
+                        add(0, okey);
+                    } else {
+                        add(0, okey);
+                        add(2, okey);
+                    }
+                    break;
+                default: // mix
+                    for (auto& k : near_keys(true, m / 2 + 1, 1)) { add(2, k); }
+                    for (auto& k : near_keys(false, m / 2 + 1, 0)) { add(0, k); }
+                    break;
+            }
+        }
+        if (burst.empty()) {
+            yk::delete_storage(storage);
+            oses.leave();
+            wses.leave();
+            continue;
+        }
+        status ogot = status::OK;
+        auto run_outer = [&]() {
+            park.count = 0;
+            park.parked = false;
+            std::string v = make_value(oid, okey, VLEN);
+            park.armed = true;
+            ogot = okind == 2 ? yk::remove(oses.tok, storage, okey) : yput(oses.tok, storage, okey, v, okind == 0, 8);
+            park.armed = false;
+        };
+        park.park_at = 0;
+        run_outer();
+        g_progress.fetch_add(1, std::memory_order_relaxed);
+        uint64_t K = park.count;
+        yk::delete_storage(storage);
+        if (K == 0) {
+            oses.leave();
+            wses.leave();
+            continue;
+        }
+        std::vector<uint64_t> points;
+        if (K <= max_points) {
+            for (uint64_t k = 1; k <= K; ++k) { points.push_back(k); }
+        } else {
+            for (uint64_t k = K - 15; k <= K; ++k) { points.push_back(k); } // the tail holds the unlock / publish sequence
+            for (uint64_t k = 1; k <= 4; ++k) { points.push_back(k); }
+            while (points.size() < max_points) { points.push_back(r.range(5, K - 16)); }
+            std::sort(points.begin(), points.end());
+            points.erase(std::unique(points.begin(), points.end()), points.end());
+        }
+        rep.count("cases");
+        rep.maxc("max_hook_events_in_one_writer_call", K);
+        for (uint64_t kstar : points) {
+            if (rep.violations() >= 12) { break; }
+            build();
+            yk::tree_instance* ti = nullptr;
+            yk::find_storage(storage, &ti);
+            for (auto& op : burst) { op.got = status::OK; }
+            park.gen += 1;
+            park.park_at = kstar;
+            park.pause_us = static_cast<uint32_t>(r.range(50, 400));
+            run_outer();
+            bool was_parked = park.parked;
+            bool inside = was_parked && done.load(std::memory_order_acquire) == park.gen;
+            if (was_parked) {
+                for (uint64_t w = 0; done.load(std::memory_order_acquire) != park.gen; ++w) {
+                    if (w > 2000) { std::this_thread::sleep_for(std::chrono::microseconds(20)); }
+                }
+            }
+            ++executions;
+            if (inside) { ++finished_inside; }
+            g_progress.fetch_add(1, std::memory_order_relaxed);
+            rep.eval();
+            auto describe = [&]() {
+                JObj d;
+                static const char* kn[] = {"unique-put", "put", "remove"};
+                d.num("case", cs).num("universe", static_cast<uint64_t>(ukind)).str("a_op", kn[okind]).str("key", okey).boolean("key_present_before", state0.count(okey) != 0U).str("a_status", st(ogot));
+                d.num("parked_at_event", kstar).num("events_undisturbed", K).num("burst_kind", static_cast<uint64_t>(bkind)).num("burst_ops", burst.size()).boolean("burst_ran", was_parked).boolean("burst_finished_inside_the_pause", inside);
+                d.num("keys_before", state0.size()).num("thinned", thin.size());
+                return d;
+            };
+            std::map<std::string, uint64_t> final_content;
+            std::string content_problem;
+            {
+                std::vector<ScanTuple> tl;
+                yk::scan<char>(storage, "", scan_endpoint::INF, "", scan_endpoint::INF, tl, nullptr, 0, false);
+                for (auto& t : tl) {
+                    uint64_t vid = 0;
+                    ValCheck vc = check_value(std::get<1>(t), std::get<2>(t), std::get<0>(t), vid);
+                    if (vc != ValCheck::OK && content_problem.empty()) { content_problem = std::string("value ") + valcheck_name(vc) + " for key " + std::get<0>(t); }
+                    if (!final_content.emplace(std::get<0>(t), vid).second && content_problem.empty()) { content_problem = "key " + std::get<0>(t) + " listed twice"; }
+                }
+            }
+            if (!content_problem.empty()) { rep.violation("park:final-content-invalid", content_problem, describe().done()); }
+            int took_effect_at = -1;
+            if (content_problem.empty()) {
+                std::size_t positions = was_parked ? burst.size() + 1 : 1;
+                for (std::size_t j = 0; j < positions && took_effect_at < 0; ++j) {
+                    std::map<std::string, uint64_t> m = state0;
+                    bool ok = true;
+                    auto apply = [&](int kind, const std::string& k, uint64_t id, status got) {
+                        bool present = m.count(k) != 0U;
+                        status want;
+                        if (kind == 2) {
+                            want = present ? status::OK : status::OK_NOT_FOUND;
+                            m.erase(k);
+                        } else if (kind == 0) {
+                            want = present ? status::WARN_UNIQUE_RESTRICTION : status::OK;
+                            if (!present) { m[k] = id; }
+                        } else {
+                            want = status::OK;
+                            m[k] = id;
+                        }
+                        if (want != got) { ok = false; }
+                    };
+                    for (std::size_t i = 0; i <= (was_parked ? burst.size() : 0); ++i) {
+                        if (i == j) { apply(okind, okey, oid, ogot); }
+                        if (was_parked && i < burst.size()) { apply(burst[i].kind, burst[i].key, burst[i].id, burst[i].got); }
+                    }
+                    if (ok && m == final_content) { took_effect_at = static_cast<int>(j); }
+                }
+                if (took_effect_at < 0) {
+                    std::vector<std::string> bs;
+                    for (auto& op : burst) { bs.push_back(JObj().num("kind", static_cast<uint64_t>(op.kind)).str("key", op.key).str("status", st(op.got)).done()); }
+                    rep.violation("park:not-linearizable", "statuses and final content match no sequential execution in which the parked operation takes effect at some position of the other thread's burst",
+                                  describe().num("keys_in_final_content", final_content.size()).raw("burst", jarr(bs)).done());
+                }
+            }
+            {
+                Walker w(alloc::mode() == alloc::Mode::FULL);
+                WalkResult wr = w.walk(ti);
+                for (auto& [ek, ed] : wr.errors) { rep.violation("walker:" + ek, "structure after a writer was parked at one of its steps while another writer ran next to it", ed); }
+                if (wr.entries.size() != final_content.size()) { rep.violation("park:walker-and-scan-disagree", "number of entries reachable by the walker differs from the full scan", describe().num("walker", wr.entries.size()).num("scan", final_content.size()).done()); }
+                std::size_t unreachable = 0;
+                std::string first;
+                for (auto& [k, id] : final_content) {
+                    (void) id;
+                    std::pair<char*, std::size_t> g;
+                    if (yget(storage, k, g) != status::OK) {
+                        if (unreachable++ == 0) { first = k; }
+                    }
+                }
+                if (unreachable != 0) { rep.violation("park:key-not-found-by-descent", "a key the full scan returns is not found by get", describe().num("keys", unreachable).str("first", first).done()); }
+            }
+            if (was_parked) {
+                uint64_t q = (kstar * 8) / (K + 1);
+                rep.distinct(mix64(static_cast<uint64_t>(okind), mix64(static_cast<uint64_t>(bkind), mix64(q, (inside ? 1 : 0) + 2 * static_cast<uint64_t>(took_effect_at + 1 > 3 ? 3 : took_effect_at + 1)))));
+            }
+            if (rep.get("samples_taken") < 2 && was_parked && !inside) {
+                rep.count("samples_taken");
+                rep.sample(describe().done());
+            }
+            yk::delete_storage(storage);
+            if (executions % 16 == 0) {
+                oses.reenter();
+                wses.reenter();
+            }
+        }
+        oses.leave();
+        wses.leave();
+    }
+    quit.store(true);
+    bthread.join();
+    t_park = nullptr;
+    ctl::install();
+    rep.count("executions", executions);
+    rep.count("executions_where_the_burst_finished_inside_the_pause", finished_inside);
+    rep.count("executions_where_the_burst_was_still_running_when_the_writer_resumed", executions - finished_inside);
+    yk::fin();
+    drain_alloc_problems(rep);
+    if (executions < 50) { rep.inconclusive("fewer than 50 parked executions"); }
+    return rep.finish();
+}
